@@ -45,4 +45,8 @@ theorem holds_send_after_stream_end_returns : GrpcBroker.sendAfterEndReturns Fac
 theorem holds_accept_timeout_releases_lock (nothingParked : Bool) : MuxBroker.timeoutReleasesLock Facts.muxAccept nothingParked = true :=
   (Props.C06.accept_bookkeeping _ (by decide) nothingParked 0 0).1
 
+theorem holds_closed_listener_releases_loop (taken closed : Bool) (h : taken = true ∨ closed = true) :
+    GrpcMux.loopPastHandoff Facts.grpcMuxHandoff taken closed = true :=
+  Props.C09.closed_listener_releases_loop _ (by decide) taken closed h
+
 end GoPlugin.Instance.C09
